@@ -375,7 +375,9 @@ def units(tier):
     th = tier == 'thorough'
     # part A: leg-order / block-pairing obligations shared with C02 (subset in quick)
     keep = {'h_transpose', 'h_moveaxis', 'h_add_leg', 'h_remove_leg', 'h_consume', 'h_diag', 'h_tensordot', 'h_trace', 'h_vdot', 'h_add', 'h_broadcast'}
-    shared = [u for u in C2.units(tier) if u[0] in keep]
+    # thorough: every shared unit of C02's QUICK list, unsampled (C02's own thorough tier runs the larger shapes; repeating them here
+    # doubled hours of solver time without adding an obligation that is not discharged there)
+    shared = [u for u in C2.units('quick') if u[0] in keep]
     if not th:
         shared = [u for u in shared if (',U1,' in ',' + u[1] + ',' or u[1].startswith('U1,') or ',Z2,' in ',' + u[1] + ',' or u[1].startswith('Z2,'))]
         shared = shared[::3]
